@@ -6,7 +6,13 @@ use std::time::{Duration, Instant};
 use verif_harness::ctx::*;
 use verif_harness::props;
 
+#[cfg(not(miri))]
+#[global_allocator]
+static GLOBAL: verif_harness::alloc::Counting = verif_harness::alloc::Counting;
+
 fn main() {
+    #[cfg(not(miri))]
+    verif_harness::alloc::INSTALLED.store(std::env::var("VERIF_NO_ALLOC_TRACK").is_err(), std::sync::atomic::Ordering::SeqCst);
     let args: Vec<String> = std::env::args().collect();
     if args.len() < 2 {
         eprintln!("usage: vcheck <ID> [--tier quick|thorough] [--seed N] ...");
